@@ -101,21 +101,10 @@ def handle : Handler
       let c ← csrRat? n m ip ix dt
       let k ← k.toInt?
       let vm := valMat c
-      let em := edgeMat c
-      match countCliquesEntry c.nRow c.nCol (valOf vm) (edgeOf em) k with
+      match countCliquesEntry c.nRow c.nCol (valOf vm) k with
       | .error e => some (showErr e)
       | .ok none => some "fuel"
       | .ok (some t) => some s!"ok {t}") "bad-args"
-  -- the same with the permutation `np.argsort` actually returned (on a non-symmetric matrix the count depends on
-  -- the order of equal core values)
-  | "c11.cliques_with", [n, m, ip, ix, dt, k, perm] => some <| Option.getD (do
-      let c ← csrRat? n m ip ix dt
-      let k ← k.toNat?
-      let perm ← natList? perm
-      let em := edgeMat c
-      match countCliquesWith c.nRow (edgeOf em) k perm with
-      | .error e => some (showErr e)
-      | .ok t => some s!"ok {t}") "bad-args"
   -- the core kernel alone on a raw CSR structure
   | "c11.core_kernel", [ip, ix] => some <| Option.getD (do
       let ip ← natList? ip
